@@ -123,6 +123,7 @@ type jobResult struct {
 	Fallbacks   int                    `json:"merge_fallbacks"`
 	TwoVar      int                    `json:"two_var_relations"`
 	MemoHits    int                    `json:"memo_hits"`
+	MergeHits   int                    `json:"merge_cache_hits"`
 	Forks       int                    `json:"forks"`
 	Outputs     []string               `json:"outputs,omitempty"`
 	GlobalW     []string               `json:"global_writes,omitempty"`
@@ -132,7 +133,7 @@ type jobResult struct {
 }
 
 var stats struct {
-	forks, merges, mergedPaths, mergeFallbacks, twoVar, memoHits, prunedDomAlts, mapRanges int
+	forks, merges, mergedPaths, mergeFallbacks, twoVar, memoHits, prunedDomAlts, mapRanges, mergeCacheHits int
 }
 
 var cur *jobResult
@@ -259,7 +260,7 @@ func nondetNames() []string {
 }
 
 func vectorFromModel(m map[string]string) []vecEntry {
-	var out []vecEntry
+	out := []vecEntry{}
 	for _, nd := range rs.nondets {
 		e := vecEntry{Name: nd.Name, Kind: nd.Kind}
 		switch nd.Kind {
@@ -460,11 +461,12 @@ func runJob(j job) *jobResult {
 	res := &jobResult{ID: j.ID, Harness: j.Harness, Args: j.Args, Asserts: map[string]*assertStat{}, PanicSites: map[string]int{}}
 	cur = res
 	stats = struct {
-		forks, merges, mergedPaths, mergeFallbacks, twoVar, memoHits, prunedDomAlts, mapRanges int
+		forks, merges, mergedPaths, mergeFallbacks, twoVar, memoHits, prunedDomAlts, mapRanges, mergeCacheHits int
 	}{}
 	globalWrites = map[string]bool{}
 	globalReads = map[string]bool{}
 	noMergeAt = map[ssa.Instruction]bool{}
+	mergeCache = map[string]value{}
 	pkgName := j.Pkg
 	if pkgName == "" {
 		pkgName = "spdxexp"
@@ -622,6 +624,7 @@ func runJob(j job) *jobResult {
 	res.WallS = time.Since(t0).Seconds()
 	res.Merges, res.MergedPaths, res.Fallbacks = stats.merges, stats.mergedPaths, stats.mergeFallbacks
 	res.TwoVar, res.MemoHits, res.Forks, res.MapRanges = stats.twoVar, stats.memoHits, stats.forks, stats.mapRanges
+	res.MergeHits = stats.mergeCacheHits
 	if res.Unknown > 0 {
 		inconclusive(fmt.Sprintf("%d solver queries answered unknown", res.Unknown))
 	}
